@@ -89,7 +89,7 @@ int bc_aes_cbc_dec(uint8_t *out, size_t *out_len, const uint8_t *in,
 			in_len, out);
 
 	*out_len = 0;
-	if (pad_len <= 0) {
+	if (pad_len < 0 || in_len == 0) {
 		return RLC_ERR;
 	} else {
 		*out_len = pad_len;
